@@ -232,6 +232,15 @@ def gen_case(rng, i):
     if rng.random() < 0.4:
         # a header tag defined on several lines is stored as a field array
         lines = ['H\tzx:i:1', 'H\tzx:i:2'] + lines
+    if i < 4 or rng.random() < 0.4:
+        # leave a segment (and, in GFA1, a link under a path) undefined: the Gfa holds placeholders, which are cloned too
+        segs = [l for l in lines if l.startswith('S\t')]
+        for l in rng.sample(segs, min(len(segs), rng.choice([1, 2]))):
+            lines = [x for x in lines if x is not l]
+        if version == 'gfa1':
+            lines = lines + ['P\tpv\tvA+,vB-\t*']
+        else:
+            lines = lines + ['O\tov\tvA+ vE+ vB-', 'U\tuv\tvA vX']
     return {'kind': 'clone', 'version': version, 'vlevel': vlevel, 'lines': lines, 'seed': rng.randrange(10 ** 9)}
 
 
